@@ -3,8 +3,11 @@ package props
 import (
 	"bytes"
 	"compress/flate"
+	"compress/gzip"
+	"compress/zlib"
 	"encoding/base64"
 	"fmt"
+	"io"
 	"math/rand"
 	"net/url"
 	"runtime"
@@ -20,9 +23,22 @@ import (
 
 // bomb builds base64(deflate(prefix + pad*n + suffix)) without materialising the inflated data.
 func bomb(prefix, suffix string, padByte byte, n int64) string {
+	return bombIn("raw", prefix, suffix, padByte, n)
+}
+
+// bombIn wraps the DEFLATE stream in the given container: raw | zlib | gzip.
+func bombIn(container, prefix, suffix string, padByte byte, n int64) string {
 	var buf bytes.Buffer
 	enc := base64.NewEncoder(base64.StdEncoding, &buf)
-	w, _ := flate.NewWriter(enc, 6)
+	var w io.WriteCloser
+	switch container {
+	case "zlib":
+		w, _ = zlib.NewWriterLevel(enc, 6)
+	case "gzip":
+		w, _ = gzip.NewWriterLevel(enc, 6)
+	default:
+		w, _ = flate.NewWriter(enc, 6)
+	}
 	_, _ = w.Write([]byte(prefix))
 	chunk := bytes.Repeat([]byte{padByte}, 1<<20)
 	for n > 0 {
@@ -70,13 +86,15 @@ func c14Run(r *core.Run, idx int, rng *rand.Rand) {
 		}
 	}
 	variants = append(variants, variant{"comment", "sso_query", false}, variant{"text", "logout_query", false}, variant{"garbage", "sso_query", false}, variant{"garbage", "logout_form", false})
+	// other containers around the same DEFLATE data (what zlib / gzip producing peers send)
+	variants = append(variants, variant{"comment/zlib", "sso_query", true}, variant{"after_root/zlib", "logout_form", true}, variant{"text/gzip", "sso_form", true}, variant{"comment/gzip", "logout_query", true})
 	if !thorough {
 		// quick: every endpoint with two placements, every placement on two endpoints
 		keep := map[string]bool{"sso_query/comment": true, "sso_query/attribute": true, "sso_form/text": true, "sso_form/after_root": true,
 			"logout_query/comment": true, "logout_query/text": true, "logout_form/attribute": true, "logout_form/after_root": true}
 		var v2 []variant
 		for _, v := range variants {
-			if keep[v.endpoint+"/"+v.place] || !v.valid {
+			if keep[v.endpoint+"/"+v.place] || !v.valid || strings.Contains(v.place, "/") {
 				v2 = append(v2, v)
 			}
 		}
@@ -115,7 +133,11 @@ func c14Run(r *core.Run, idx int, rng *rand.Rand) {
 				doc = strings.Replace(doc, `Version="2.0"`, `Version=""`, 1)
 			}
 			gt := strings.Index(doc, ">")
-			switch v.place {
+			place, container := v.place, "raw"
+			if i := strings.IndexByte(place, '/'); i >= 0 {
+				place, container = place[:i], place[i+1:]
+			}
+			switch place {
 			case "comment":
 				prefix, suffix = doc[:gt+1]+"<!--", "-->"+doc[gt+1:]
 			case "text":
@@ -128,7 +150,7 @@ func c14Run(r *core.Run, idx int, rng *rand.Rand) {
 			case "garbage":
 				prefix, suffix, pad = "", "", 0
 			}
-			param := bomb(prefix, suffix, pad, size)
+			param := bombIn(container, prefix, suffix, pad, size)
 			var rq env.Req
 			switch v.endpoint {
 			case "sso_query":
@@ -197,9 +219,9 @@ func init() {
 		TimeoutQuick: 10 * time.Minute, TimeoutThorough: 40 * time.Minute,
 		Build: func(c *Ctx) []core.Workload {
 			r := c.Run
-			r.Rule = "DEFLATE payloads inflating to 1, 4, 16, 64, 256 MiB (thorough: + 1 GiB) with the padding in a comment, in text, in an attribute value, after the root element or as pure garbage, inside otherwise valid and invalid AuthnRequests / LogoutRequests, sent to the SSO endpoint by query and by form and to the logout endpoint by query and by form; strictly sequential in a dedicated child process. Monitor: runtime.MemStats.TotalAlloc delta around one ServeHTTP (ceiling 512 MiB), flatness (256 MiB / 1 GiB bombs may cost at most 1.5 x the 64 MiB bomb + 16 MiB), payloads inflating to >= 32 MiB not accepted. Sizes ascend and the run stops at the first ceiling/flatness violation. Distinct = (endpoint, placement, validity, size)."
+			r.Rule = "DEFLATE payloads inflating to 1, 4, 16, 64, 256 MiB (thorough: + 1 GiB) with the padding in a comment, in text, in an attribute value, after the root element or as pure garbage, as raw DEFLATE and inside zlib / gzip containers, inside otherwise valid and invalid AuthnRequests / LogoutRequests, sent to the SSO endpoint by query and by form and to the logout endpoint by query and by form; strictly sequential in a dedicated child process. Monitor: runtime.MemStats.TotalAlloc delta around one ServeHTTP (ceiling 512 MiB), flatness (256 MiB / 1 GiB bombs may cost at most 1.5 x the 64 MiB bomb + 16 MiB), payloads inflating to >= 32 MiB not accepted. Sizes ascend and the run stops at the first ceiling/flatness violation. Distinct = (endpoint, placement, validity, size)."
 			r.Assume("TotalAlloc (cumulative allocation) is measured, not resident memory; thresholds are loose so that any reasonable cap (8-32 MiB) passes")
-			r.Require("payloads", int64(c.Pick(50, 110)))
+			r.Require("payloads", int64(c.Pick(70, 130)))
 			r.Require("flatness_comparisons", int64(c.Pick(10, 40)))
 			return []core.Workload{{Name: "bombs", N: 1, Workers: 1, Fn: c14Run}}
 		},
